@@ -73,6 +73,35 @@ def accJ (st : Option Acc) : Json :=
   | none => Json.null
   | some a => objJ [("count", natJ a.count), ("sum", ratsJ a.sum), ("sumsq", ratsJ a.sumsq)]
 
+/-- `mean_var_norm(x, dim, mean?, std?, eps)` for all four combinations of supplied / omitted
+statistics.  Model: `meanVarNorm` (its first pass yields the variance of the input centred with
+the mean in use, whose trusted `sqrt` is then handed back in).  Spec: `mvnSpec` with, for an omitted
+statistic, the input's OWN mean / `sqrt` of the input's OWN biased variance, both computed from
+`coeffEntries` (never from the supplied statistic). -/
+def gridJ (x : Tensor) (d : Nat) (m sd : List Rat) (eps : Rat) : Except String Json := do
+  let X := x.shape.getD d 1
+  if m.length ≠ X ∨ sd.length ≠ X then throw "grid: statistics of the wrong length"
+  let entries := (List.range X).map (coeffEntries x d)
+  let ownMean := entries.map poolMean
+  let ownVar := entries.map poolVar
+  let ownSd := ownVar.map sqrtRat
+  let combos : List (String × Option (List Rat) × Option (List Rat)) :=
+    [("none", none, none), ("mean", some m, none), ("std", none, some sd), ("both", some m, some sd)]
+  let mut mj : List (String × Json) := []
+  let mut sj : List (String × Json) := []
+  for (name, m?, s?) in combos do
+    let (mu, v, _) := meanVarNorm x d m? s? (List.replicate X 0) eps
+    if v ≠ ownVar then
+      throw s!"grid ({name}): the model's variance of the centred input ≠ the input's own variance"
+    if mu ≠ m?.getD ownMean then throw s!"grid ({name}): the model's mean ≠ supplied / own mean"
+    let (_, _, y) := meanVarNorm x d m? s? (v.map sqrtRat) eps
+    let spec := mvnSpec x d (m?.getD ownMean) (s?.getD ownSd) eps
+    if y.shape ≠ spec.shape ∨ y.data ≠ spec.data then throw s!"grid ({name}): model forward ≠ formula"
+    mj := mj ++ [(name, ratsJ y.data)]
+    sj := sj ++ [(name, ratsJ spec.data)]
+  pure (objJ [("model", objJ mj), ("spec", objJ sj), ("own_mean", ratsJ ownMean), ("own_var", ratsJ ownVar),
+              ("mean", ratsJ m), ("std", ratsJ sd)])
+
 /-- case: {dim, pooled_dim?, bessel, eps, chunks: [tensor], pooled: tensor, mid?: k}.
 `mid = k`: additionally the buffers and `store` after the first `k` chunks ("accumulate after
 store").  `restart`: the buffers after a fresh start with the first chunk only. -/
@@ -146,9 +175,32 @@ def c18Mvn : Handler := fun c => do
                        ("y_std_only", ratsJ yStdSpec.data)]
     out := out ++ [("store", objJ [("mean", ratsJ m), ("var", ratsJ v), ("y", ratsJ y.data),
       ("y_mean_only", ratsJ yMean.data), ("y_std_only", ratsJ yStd.data)])]
+  -- forward grids: {x, dim, mean, std} with supplied statistics, or {x, dim, use_stored: true}
+  let grids ← match fieldOpt c "grids" with
+    | none => pure []
+    | some g => jsonToList pure g
+  let mut gj : List Json := []
+  for g in grids do
+    let gx ← field g "x" >>= jsonToTensor
+    let gdim ← getInt g "dim"
+    let gd ← normDimE gdim gx.shape.length
+    match fieldOpt g "use_stored" with
+    | some _ =>
+      match stored with
+      | none => gj := gj ++ [Json.null]
+      | some (m, v) => gj := gj ++ [← gridJ gx gd m (v.map sqrtRat) eps]
+    | none =>
+      let gm ← getRatList g "mean"
+      let gs ← getRatList g "std"
+      gj := gj ++ [← gridJ gx gd gm gs eps]
+  out := out ++ [("grids", Json.arr gj.toArray)]
   pure (objJ (out ++ [("spec", objJ specJ)]))
 
-/-- case: {dim, bessel, groups: [{gid, files: [tensor] (in sorted-id order)}]}. -/
+/-- case: {dim, bessel, groups: [{gid, files: [tensor] (in sorted-id order)}],
+files?: [{id, x: tensor}] (sorted ids), map?: [[id, gid]] | null}.
+`groups` (the harness' own grouping) is evaluated group by group with `accumulate`/`store`; when
+`files` is present the model of the command itself (`cliStats`: group table, one accumulator per
+group, lookups, exit status) is run as well and must agree with the per-group evaluation. -/
 def c18Cli : Handler := fun c => do
   let dim ← getInt c "dim"
   let bessel ← getBool c "bessel"
@@ -158,11 +210,105 @@ def c18Cli : Handler := fun c => do
     pure (gid, files))
   let outs ← groups.mapM (fun (gid, files) => do
     let (_, stored) ← runAccumulate dim files bessel
-    let sj := match stored with
+    pure (gid, files, stored))
+  let outsJ := outs.map (fun (gid, _, stored) =>
+    objJ [("gid", strJ gid), ("stats", match stored with
       | none => Json.null
-      | some (m, v) => objJ [("mean", ratsJ m), ("var", ratsJ v)]
-    pure (objJ [("gid", strJ gid), ("stats", sj)]))
-  pure (Json.arr outs.toArray)
+      | some (m, v) => objJ [("mean", ratsJ m), ("var", ratsJ v)])])
+  match fieldOpt c "files" with
+  | none => pure (Json.arr outsJ.toArray)
+  | some fj =>
+    let files ← jsonToList (fun f => do
+      let id ← getStr f "id"
+      let x ← field f "x" >>= jsonToTensor
+      let d ← normDimE dim x.shape.length
+      pure (id, columns x d)) fj
+    let map ← match fieldOpt c "map" with
+      | none => pure none
+      | some mj => do
+        let l ← jsonToList (fun p => do
+          let a ← jsonToList jsonToStr p
+          pure (a.getD 0 "", a.getD 1 "")) mj
+        pure (some l)
+    let res := cliStats map files bessel
+    let nonEmpty := outs.filter (fun (_, files, _) => !files.isEmpty)
+    let resJ ← match res with
+      | .exit1 => pure (strJ "exit1")
+      | .raised =>
+        if !(nonEmpty.any (fun (_, _, stored) => stored.isNone)) then
+          throw "cli: command model raises, per-group evaluation does not"
+        pure (strJ "raised")
+      | .wrote l =>
+        -- same groups (as a set, the harness sorts) and same statistics as the per-group evaluation
+        let key := fun (g : Option String) => g.getD ""
+        if l.length ≠ nonEmpty.length then throw "cli: command model and per-group evaluation differ in groups"
+        for (g, st) in l do
+          match nonEmpty.find? (fun (gid, _, _) => gid == key g) with
+          | some (_, _, some st') => if st ≠ st' then throw s!"cli: group {key g}: command model ≠ per-group statistics"
+          | _ => throw s!"cli: group {key g} of the command model not in the per-group evaluation"
+        pure (listJ (fun (g, st) => objJ [("gid", strJ (key g)), ("stats", statsJ (some st))]) l)
+    pure (objJ [("groups", Json.arr outsJ.toArray), ("command", resJ)])
+
+def statsJ (st : Option (List Rat × List Rat)) : Json :=
+  match st with
+  | none => Json.null
+  | some (m, v) => objJ [("mean", ratsJ m), ("var", ratsJ v)]
+
+/-- case: {dim, tensors: [tensor], ops: [{"acc": k} | {"store": [delete_stats, bessel]}],
+preset: bool}.  Runs the state machine `mvnStep` call by call and, next to it, the declarative
+description (`pendingSpec` / `statsSpec` / pooled statistics straight from `coeffEntries` of the
+pending tensors); throws when they differ.  `preset`: the module starts with some statistics
+(their value is not the model's business: it reports `"preset"` until a store overwrites them). -/
+def c18Machine : Handler := fun c => do
+  let dim ← getInt c "dim"
+  let tensors ← getList jsonToTensor c "tensors"
+  let opsJ ← field c "ops" >>= jsonToList pure
+  let mut ops : List (MvnOp × Option Tensor) := []
+  for o in opsJ do
+    match fieldOpt o "acc" with
+    | some k =>
+      let k ← jsonToNat k
+      let some t := tensors[k]? | throw "machine: tensor index out of range"
+      let d ← normDimE dim t.shape.length
+      ops := ops ++ [(MvnOp.accumulate (columns t d), some t)]
+    | none =>
+      let a ← getList jsonToBool o "store"
+      ops := ops ++ [(MvnOp.store (a.getD 0 true) (a.getD 1 false), none)]
+  let mut s : MvnState := ⟨none, none⟩
+  let mut done : List MvnOp := []
+  let mut pendT : List Tensor := []          -- tensors pending according to the spec
+  let mut everStored := false
+  let mut steps : List Json := []
+  for (op, t?) in ops do
+    let (s', raised) := mvnStep s op
+    done := done ++ [op]
+    -- the spec side, from the list of calls only
+    let pend := pendingSpec [] done
+    let st := statsSpec [] none done
+    if s'.acc ≠ accumulateAllCols pend then throw "machine: buffers ≠ accumulateAllCols (pendingSpec ops)"
+    if s'.stats ≠ st then throw "machine: statistics ≠ statsSpec ops"
+    if mvnRun ⟨none, none⟩ done ≠ s' then throw "machine: mvnRun ≠ iterated mvnStep"
+    -- and entry-level: pooled statistics of the pending tensors at a successful store
+    let mut specStore := Json.null
+    match op, t? with
+    | .accumulate _, some t => pendT := pendT ++ [t]
+    | .store del bessel, _ =>
+      if !raised then
+        let (m1, v1) ← specStatsChunks dim pendT bessel
+        if s'.stats ≠ some (m1, v1) then throw "machine: stored statistics ≠ pooled statistics of the pending entries"
+        specStore := statsJ (some (m1, v1))
+        everStored := true
+        if del then pendT := []
+      else
+        let frames := framesOf (pendingSpec [] (done.dropLast))
+        if ¬ (pendT.isEmpty ∨ frames < (if bessel then 2 else 1)) then throw "machine: store raised with enough frames"
+    | _, _ => pure ()
+    if pendT.length ≠ pend.length then throw "machine: pending tensors ≠ pendingSpec"
+    steps := steps ++ [objJ [("raised", boolJ raised), ("acc", accJ s'.acc), ("stats", statsJ s'.stats),
+                              ("stored_now", specStore), ("ever_stored", boolJ everStored),
+                              ("pending", natJ pend.length)]]
+    s := s'
+  pure (objJ [("steps", Json.arr steps.toArray)])
 
 def parsePad (s : String) (v : Rat) : Except String PadMode :=
   match s with
@@ -213,4 +359,4 @@ def c18Return : Handler := fun c => do
   pure (objJ [("model", listJ ratsJ m), ("spec", listJ ratsJ spec)])
 
 def main : IO Unit := Proto.run
-  [("c18.mvn", c18Mvn), ("c18.cli", c18Cli), ("c18.deltas", c18Deltas), ("c18.return", c18Return)]
+  [("c18.mvn", c18Mvn), ("c18.machine", c18Machine), ("c18.cli", c18Cli), ("c18.deltas", c18Deltas), ("c18.return", c18Return)]
